@@ -407,6 +407,46 @@ class Engine:
             self.nq[f"{kind}:{r}"] += 1
             if r != z3.unknown:
                 return r, m
+        # last resort, for counterexamples only: pin the declared inputs to sampled values (the query then
+        # has few free variables left: draws, roots) -- a `sat` under pins is a genuine model of the goal
+        import random as _random
+
+        rnd = _random.Random(self.seed + 97)
+        for trial in range(6):
+            pins = []
+            for name, c in self.symbols.items():
+                kind, lo, hi = self.ranges.get(name, ["R", None, None])
+                if kind == "B":
+                    pins.append(c == z3.BoolVal(rnd.random() < 0.5))
+                elif kind == "I":
+                    lo_ = 0 if lo is None else lo
+                    hi_ = lo_ + 6 if hi is None else hi
+                    pins.append(c == rnd.randint(lo_, hi_))
+                else:
+                    if lo is not None and hi is not None:
+                        v = rnd.uniform(lo, hi)
+                    elif lo is not None:
+                        v = lo + abs(rnd.gauss(0, 1)) + 0.01
+                    elif hi is not None:
+                        v = hi - abs(rnd.gauss(0, 1)) - 0.01
+                    else:
+                        v = rnd.gauss(0, 2)
+                    pins.append(c == z3.RealVal(Fraction(round(v, 3)).limit_denominator(1000)))
+            t = time.time()
+            try:
+                s = z3.Solver()
+                s.set("timeout", max(2000, self.prove_timeout // 3))
+                s.add(*asserts)
+                s.add(goal)
+                s.add(*pins)
+                r = s.check()
+                m = s.model() if r == z3.sat else None
+            except z3.Z3Exception:
+                r, m = z3.unknown, None
+            self.tsolve += time.time() - t
+            self.nq[f"pinned:{r}"] += 1
+            if r == z3.sat:
+                return r, m
         return z3.unknown, None
 
     def _witnesses(self, goal, m, evals, k=5):
